@@ -185,7 +185,7 @@ TimeWays(r, vw, s, k, vdev) ==
   ELSE IF s.end # k \/ s.t # cfg.temps[r] THEN {}
   ELSE IF cfg.temps[r] = "cum" THEN (IF s.start = 0 THEN {{}} ELSE {})
   ELSE IF s.start \in cols[r] /\ s.start >= lastPt[r][vw] THEN {{}}
-  ELSE IF D2 \in vdev /\ s.start \in cols[r] THEN {{D2}}      \* the replacing storage starts afresh
+  ELSE IF Twin /\ nh >= 2 /\ s.start \in cols[r] THEN {{D2}}   \* the replacing storage starts afresh
   ELSE IF D1 \in Dev /\ Len(cfg.temps) = 1 /\ s.start = 0 THEN {{D1}}
   ELSE {}
 
